@@ -52,6 +52,8 @@ def generate(seed, tier):
         if len(cases) % 3 == 0:
             # the asynchronous dispatcher serving plain (non-coroutine) functions
             cases.append({'text': t, 'async': 'plain', 'max_batch': None})
+        if len(cases) % 3 == 1:
+            cases.append({'text': t, 'async': 'wrapped', 'max_batch': None})
     return cases
 
 
